@@ -267,6 +267,11 @@ def _apply_transform_job(transformed_before: bool) -> Callable[[], Record]:
             opt = [e for e in log if e[0] == "optimize"]
             runs = [e for e in log if e[0] == "run"]
             ctx.oblige(f"{tag}:traced_exactly_once_over_two_calls(no stale dynamo_forward of the source is used){cs}", len(opt) == 1 and opt[0][2] is res and len(runs) == 2)
+            # precondition of the ASSUMED TorchDynamo contract (A5: the compiled function depends only on
+            # forward / inputs / backend list): no cache entry for forward's code object survives from
+            # another transformed copy of the same class (beyond recompile_limit Dynamo silently runs eagerly)
+            idx = [j for j, e in enumerate(log) if e[0] == "optimize"]
+            ctx.oblige(f"{tag}:dynamo_cache_reset_immediately_before_each_compilation{cs}", bool(idx) and all(j > 0 and log[j - 1][0] == "reset" for j in idx), log=str([e[0] for e in log]))
             if opt:
                 comp = opt[0][1]
                 same_list = isinstance(comp, FuncVal) and comp.env.has("backends") and comp.env.lookup("backends") is nb
@@ -286,7 +291,8 @@ def interp_getattr(it: Any, obj: Any, name: str) -> Any:
 
 
 for _t in (False, True):
-    register(Job(f"c17:apply_transform[transformed_before={_t}]", ["C17", "C09"], TU + "apply_transform", {"source_already_transformed": _t}, _apply_transform_job(_t)))
+    # simulate_format / unit_scale / track_scales are all built on apply_transform's contract
+    register(Job(f"c17:apply_transform[transformed_before={_t}]", ["C17", "C09", "C15", "C16", "C18"], TU + "apply_transform", {"source_already_transformed": _t}, _apply_transform_job(_t), shared=True))
 
 
 class BackendFn:
